@@ -188,7 +188,8 @@ impl Comp for C5 {
 }
 comp_drop!(C5);
 
-#[repr(align(16))]
+// a zero-sized type with alignment 8: above 1, not above the builders' initial 8-aligned dangling base
+#[repr(align(8))]
 pub struct C6;
 impl Comp for C6 {
     const T: u64 = 6;
